@@ -59,6 +59,15 @@ def run(seed=0, trials=150):
         need(np.isclose(np.linalg.norm(x) ** 2, np.sum(x ** 2)) and (np.linalg.norm(np.zeros(m)) == 0), 'norm')
         y = rng.standard_normal(m) + 1j * rng.standard_normal(m); z = rng.standard_normal(m) + 1j * rng.standard_normal(m)
         need(np.isclose(np.vdot(y, z), np.sum(y.conj() * z)), 'vdot conjugates its first argument')
+        # inner-product level (vt/zkry.py): rows of M as vectors
+        M = rng.standard_normal((m, n)) + 1j * rng.standard_normal((m, n)); wv = rng.standard_normal(n) + 1j * rng.standard_normal(n)
+        r_ = int(rng.integers(0, m + 1)); cf = M[:r_].conj() @ wv
+        need(all(np.isclose(cf[i], np.vdot(M[i], wv)) for i in range(r_)), '(M[:r].conj() @ w)[i] = vdot(M[i], w)')
+        need(np.allclose(M[:r_].T @ cf, sum((cf[i] * M[i] for i in range(r_)), np.zeros(n))), 'M[:r].T @ c = sum_i c[i] M[i]')
+        sc = complex(rng.standard_normal(), rng.standard_normal()); rs = float(rng.standard_normal()) or 1.0
+        need(np.isclose(np.vdot(M[0], sc * wv), sc * np.vdot(M[0], wv)) and np.isclose(np.vdot(sc * wv, M[0]), np.conj(sc) * np.vdot(wv, M[0])), 'vdot is sesquilinear')
+        need(np.isclose(np.vdot(M[0], wv / rs) * rs, np.vdot(M[0], wv)) and np.isclose(np.vdot(wv, wv), np.linalg.norm(wv) ** 2), 'division by a real scalar; norm^2 = vdot(x, x)')
+        need(np.isclose(np.vdot(M[0], wv), np.conj(np.vdot(wv, M[0]))), 'vdot conjugate symmetry')
         # slicing semantics (libz.slice_len)
         L = int(rng.integers(0, 7)); lst = list(range(L))
         lo = None if rng.integers(4) == 0 else int(rng.integers(-8, 9)); hi = None if rng.integers(4) == 0 else int(rng.integers(-8, 9))
